@@ -467,6 +467,10 @@ def apply_overlay(raw, ops, guessed=None):
                 second = best - 2
                 if not sure:
                     guessed.append('/'.join(op['path']))
+        if best < full and _moved_apart(rt, b, op['before'], op['after']):
+            # one side of the anchor still matches right here while the other side no longer does at all and matches
+            # somewhere else instead (branches swapped, statements moved): the placement is a guess
+            guessed.append('/'.join(op['path']))
         if best < full * 0.45 or second >= best - 1:
             raise AnchorError('lost anchor in %s (score %d/%d, runner-up %d): context %r | %r'
                               % ('/'.join(op['path']), best, full, second,
@@ -505,6 +509,37 @@ def apply_overlay(raw, ops, guessed=None):
             di += 1
     out.append(raw[pos:])
     return ''.join(out), inserted
+
+
+def _run_back(rt, p, win):
+    """number of tokens of `win` (read backwards from its end) that match rt just before position p"""
+    n = 0
+    while n < len(win) and p - 1 - n >= 0 and rt[p - 1 - n] == win[len(win) - 1 - n]:
+        n += 1
+    return n
+
+
+def _run_fwd(rt, p, win):
+    n = 0
+    while n < len(win) and p + n < len(rt) and rt[p + n] == win[n]:
+        n += 1
+    return n
+
+
+def _moved_apart(rt, p, before, after, k=3):
+    """the annotation is the first thing of a block (its context before ends with `{`) and at the chosen position p that
+    block opening still matches while the block's content does not -- and the content is found (at least k tokens, two more
+    than here) as the beginning of some other block: the blocks were swapped (condition negated, match arms reordered), so a
+    proof hint would land in the wrong branch.  Symmetrically for an annotation that is the last thing of a block.  A changed
+    token next to an annotation (the usual small edit) does not meet this: its window is not the start / end of another block."""
+    bm, am = _run_back(rt, p, before), _run_fwd(rt, p, after)
+    if before and before[-1] == '{' and bm >= k and am < min(k, len(after)):
+        need = max(k, am + 2)
+        return any(q != p and q > 0 and rt[q - 1] == '{' and _run_fwd(rt, q, after) >= need for q in range(len(rt) + 1))
+    if after and after[0] == '}' and am >= k and bm < min(k, len(before)):
+        need = max(k, bm + 2)
+        return any(q != p and q < len(rt) and rt[q] == '}' and _run_back(rt, q, before) >= need for q in range(len(rt) + 1))
+    return False
 
 
 def strip_inserted(text, inserted):
